@@ -375,12 +375,12 @@ impl ChunkDeserializer {
         // Chunks of messages on different chunk streams may be interleaved, so the payload
         // received so far is tracked per chunk stream
         let csid = self.current_header.chunk_stream_id;
-        let mut length = self.current_header.message_length as usize;
         let current_payload_length = self.partial_payloads.get(&csid).map_or(0, |x| x.len());
-        let remaining_bytes = length - current_payload_length;
-        if length > self.max_chunk_size as usize {
-            length = min(remaining_bytes, self.max_chunk_size as usize);
-        }
+        let remaining_bytes = self.current_header.message_length as usize - current_payload_length;
+
+        // A chunk never carries more than what is still missing of its message, even if the
+        // max chunk size was raised after the message's first chunks were received
+        let length = min(remaining_bytes, self.max_chunk_size as usize);
 
         if self.buffer.len() < length {
             return Ok(ParseStageResult::NotEnoughBytes);
